@@ -874,7 +874,7 @@ def run(ck):
     dist = {"focused": 0, "random": 0, "probes": 0, "ops": {}, "backends": {}, "compress": {}, "max_groups": 0}
     covered = {}
     work = ck.work
-    state = {"n": 0, "hard": 0}
+    state = {"n": 0, "hard": 0, "found": 0}
     AVOID["afn_overwrite"] = AVOID["pzone_integral"] = AVOID["pit"] = False
     reported = set()
 
@@ -883,7 +883,8 @@ def run(ck):
         if key in reported:
             return
         reported.add(key)
-        ck.finding(key, replay_dict)
+        if ck.finding(key, replay_dict):
+            state["found"] += 1            # an unlisted key: a concrete failing input has been found and reported
 
     def hard(replay_dict, nofail=False):
         state["hard"] += 1
@@ -1201,7 +1202,7 @@ def run(ck):
     ck.extra["input_distribution"] = dist
 
     # ---- something broke without a failing input so far: widen the search (DESIGN.md 1.3)
-    if (corr_broken or broken or static_broken) and not state["hard"]:
+    if (corr_broken or broken or static_broken) and not state["hard"] and not state["found"]:
         found = False
         for j in range(120 if big else 40):
             backend = "adf" if j % 2 == 0 else "hdf5"
